@@ -35,7 +35,7 @@ META = {
 
 PRELUDE = (":- use_module(library(iso_ext)).\n:- use_module(library(lists)).\n:- use_module(library(atts)).\n"
            ":- attribute a/1.\nverify_attributes(_,_,[]).\n"
-           "c11eq(X,X).\nc11t(_,_).\n"
+           "c11eq(X,X).\nc11v1(_).\nc11v2(_,_).\nc11v3(_,_,_).\n"
            "c11obs(Vs, As, Ks, o(Vc, Ats, Bs)) :- copy_term(Vs, Vc, _), c11atts(As, Ats), c11bbs(Ks, Bs).\n"
            "c11atts([], []).\n"
            "c11atts([A|As], [O|Os]) :- ( var(A) -> ( get_atts(A, a(X)) -> O = a(X) ; O = n ) ; O = b ), c11atts(As, Os).\n"
@@ -379,11 +379,20 @@ def gen_case(rng, cid, thorough):
         if rng.random() < 0.3:
             top.append(item(0, scope))
         top.append(("obs", i))
+    # every variable occurs in a prefix goal: as an argument of a call (a stack cell in the compiled clause) or inside a
+    # structure (a heap cell).  (A variable whose first occurrence is a type test in a nested if-then-else condition is not
+    # linked to its later occurrences by the clause compiler -- a separate, reported defect that is not about backtracking.)
+    allv = pv + av
+    rng.shuffle(allv)
+    cut = rng.randint(0, len(allv))
     pre = []
-    if np_ >= 2 and rng.random() < 0.6:
-        pre.append("c11t(%s)" % ",".join(rng.sample(pv, 2)))
-    if rng.random() < 0.6:
-        pre.append("_ = h(%s)" % ",".join(rng.sample(pv, rng.randint(1, np_))))
+    if allv[:cut]:
+        pre.append("_ = h(%s)" % ",".join(allv[:cut]))
+    rest = allv[cut:]
+    while rest:
+        n = rng.randint(1, min(3, len(rest)))
+        pre.append("c11v%d(%s)" % (n, ",".join(rest[:n])))
+        rest = rest[n:]
     rng.shuffle(pre)
     return {"id": cid, "np": np_, "na": na, "nkeys": nk, "pv": pv, "av": av, "addr": addr, "atts": atts,
             "goal": ("conj", top), "nobs": nobs, "pre": pre, "kinds": kinds}
@@ -581,7 +590,9 @@ def run(ctx):
         probe_qs.append(q.replace("K", "kprobe%d" % n) + ".")
         probe_meta.append((key, q, exp))
     jobs.append({"id": "probes", "consult": PRELUDE, "queries": probe_qs, "max_answers": 1, "timeout_ms": 5000, "fresh": True})
+    import time as _t; _t0 = _t.time()
     res = core.vrun_query(ctx.prop, jobs, tag="impl")
+    dist["seconds_impl"] = round(_t.time() - _t0, 1)
 
     exprs, meta = [], []
     for i in range(0, len(cases), B):
@@ -594,7 +605,9 @@ def run(ctx):
             o1, o2 = obs_from_answer(a1), obs_from_answer(a2)
             exprs.append(case_expr(c, segs_of[c["id"]], o1, o2))
             meta.append((c, a1, a2, o1, o2, r if "results" not in r else None))
+    _t0 = _t.time()
     bad, errs = core.coq_eval_bools(ctx.prop, IMPORTS, exprs, chunk=300)
+    dist["seconds_coq"] = round(_t.time() - _t0, 1)
     tie_breaks = [{"kind": "coq-eval", "what": "model evaluation shard failed", "detail": t} for _, t in errs]
     failures = []
     for i in bad[:12]:
